@@ -35,6 +35,9 @@ PUNCT = ["(", ")", "{", "}", "[", "]", "<", ">", ",", ";", ":", "=", "==", "<=",
 LITERALS = ["0", "1", "-1", "007", "0x1F", "0b101", "0o17", "1.5", ".5", "-.5", "3.", "1e5", "99999999999999999999", "'s'", '"d"', "''", '""',
             "'''m'''", '"""m"""', "'", '"', "'''", '"""', "$v", "$", "~m", "~", "IDENT", "_x", "x1", "ünï", "π", "日本", "​", "\x00", "\x0c", "\r"]
 VOCAB = KEYWORDS + PUNCT + LITERALS
+STMT_WORDS = ["return", "end", "hold", "continue", "break", "break_loop"]
+CMP_WORDS = ["==", "<=", ">=", "!=", "<", ">", "&", "^", "&<<", "FALSE", "TRUE", "=", "-=", "+=", "*=", "/="]
+HDR_WORDS = ["debug", "edit", "variation", "not", "default", "case", "forever", "else", "actor", "object", "performer", "jump", "call", "clear", "init", "@", "§"]
 
 TOKEN_RE = re.compile(r"'''.*?'''|\"\"\".*?\"\"\"|'(?:\\.|[^'\\\n])*'|\"(?:\\.|[^\"\\\n])*\"|//[^\n]*|/\*.*?\*/|[A-Za-z_$~][A-Za-z0-9_]*|-?[0-9][0-9A-Za-z_.]*|\s+|.", re.S)
 
@@ -56,7 +59,33 @@ def corrupt_token_list(toks: list[surface.Tok], r: random.Random) -> tuple[list[
     n = len(toks)
     if n == 0:
         return [_tok(r.choice(VOCAB))], "tok_insert"
-    op = r.choice(["delete", "delete", "duplicate", "swap", "swap_adjacent", "replace", "replace", "insert", "insert", "delete_run", "move"])
+    op = r.choice(["delete", "delete", "duplicate", "swap", "swap_adjacent", "replace", "replace", "insert", "insert", "delete_run", "move",
+                   "retype", "retype", "retype"])
+    if op == "retype":
+        # a token of the same lexical class: the text mostly still parses and reaches the compile handlers
+        idx = list(range(n))
+        r.shuffle(idx)
+        for i in idx[:40]:
+            t = toks[i].text
+            if t in STMT_WORDS:
+                toks[i] = _tok(r.choice(STMT_WORDS), toks[i])
+            elif re.fullmatch(r"-?[0-9]+", t):
+                toks[i] = _tok(r.choice(["-1", "0", "1", "2", "255", "-0", "007", "0x10", "0b1", "65536", "1.5", ".5", "-2.25", "99999", "3000000000", "K", "$X"]), toks[i])
+            elif re.fullmatch(r"[A-Za-z_][A-Za-z0-9_]*", t) and t not in KEYWORDS:
+                toks[i] = _tok(r.choice(["Wait", "Jump", "Call", "Return", "End", "Hold", "Branch", "BranchBit", "Switch", "Case", "CaseText", "lives", "object", "performer",
+                                         "Null", "flag_Set", "message_SwitchTalk", "x", "K", "actor", "Destroy", r.choice(toks).text]), toks[i])
+            elif t.startswith("$"):
+                toks[i] = _tok(r.choice(["$PERFORMANCE_PROGRESS_LIST", "$X", "$p0", "K", "5"]), toks[i])
+            elif t.startswith("~"):
+                toks[i] = _tok(r.choice(["~m", "~mac1", t + "x"] + [x.text for x in toks if x.text.startswith("~")]), toks[i])
+            elif t in CMP_WORDS:
+                toks[i] = _tok(r.choice(CMP_WORDS), toks[i])
+            elif t in HDR_WORDS:
+                toks[i] = _tok(r.choice(HDR_WORDS), toks[i])
+            else:
+                continue
+            return toks, "tok_retype"
+        op = "replace"
     if op == "delete":
         for _ in range(r.choice([1, 1, 1, 2, 3])):
             if toks:
